@@ -5,6 +5,7 @@ package resolver
 import (
 	"context"
 	"errors"
+	"fmt"
 	"net"
 	"net/netip"
 	"sort"
@@ -223,4 +224,33 @@ func (d *VerifC07Deleg) Delegations() map[string][]string {
 func (d *VerifC07Deleg) Glue(name string) []netip.Addr {
 	a, _ := d.r.getIPv4Cache(name)
 	return a
+}
+
+// VerifC07PickFallback runs pickFallbackResponse. fatal: 'w' = ErrRecursionWorkLimit, 'a' =
+// ErrResolutionAttemptLimit, anything else = an ordinary network failure. Returns the message
+// handed back (nil on error) and "work" / "attempt" / "conn" / "other" for the error.
+func VerifC07PickFallback(responseErrors, configErrors []*dns.Msg, fatal string) (*dns.Msg, string) {
+	var errs []error
+	for _, c := range fatal {
+		switch c {
+		case 'w':
+			errs = append(errs, fmt.Errorf("wrapped: %w", middleware.ErrRecursionWorkLimit))
+		case 'a':
+			errs = append(errs, fmt.Errorf("wrapped: %w", middleware.ErrResolutionAttemptLimit))
+		default:
+			errs = append(errs, fatalError(errors.New("read udp: i/o timeout")))
+		}
+	}
+	m, err := pickFallbackResponse(responseErrors, configErrors, errs)
+	switch {
+	case err == nil:
+		return m, ""
+	case errors.Is(err, middleware.ErrRecursionWorkLimit):
+		return m, "work"
+	case errors.Is(err, middleware.ErrResolutionAttemptLimit):
+		return m, "attempt"
+	case errors.Is(err, errConnectionFailed):
+		return m, "conn"
+	}
+	return m, "other"
 }
